@@ -4,7 +4,6 @@ import (
 	"bufio"
 	"bytes"
 	"encoding/json"
-	"fmt"
 	"math/rand"
 	"os"
 
@@ -12,20 +11,29 @@ import (
 )
 
 var allKinds = []string{"plain", "setglob", "setfs", "csvhdr", "setmodes", "openout", "exit3", "errfunc", "errforin",
-	"cancel", "rand", "srand5", "midfile", "match", "p_io", "p_func"}
-var allCfgs = []string{"c0", "c1", "c2"}
+	"cancel", "rand", "srand5", "midfile", "match", "p_io", "p_func",
+	"gl_plain", "gl_dash", "gl_dashvar", "exit_enderr", "exitbegin", "exit_endcancel", "sys", "pipe"}
+var allCfgs = []string{"c0", "c1", "c2", "c3", "c4"}
+
+// the kinds added for the stdin / exit-status / context families are drawn more often than their share
+var newKinds = allKinds[16:]
 
 // chunksOf parses everything a run printed into (key, value) pieces; the one
 // unkeyed piece is the line fp() prints with `print` right after the rand
 // chunk (its text holds no newline except at its end, whatever OFS/ORS are).
-func chunksOf(out []byte) ([]map[string]any, []byte, error) {
-	var res []map[string]any
+//
+// Output that does not have this form is not an error of the recorder: it is
+// what the code did, and the specification must reject it.  The unparsable
+// rest becomes one chunk with the key "?" (no predicted chunk has that key).
+func chunksOf(out []byte) ([]map[string]any, []byte) {
+	res := []map[string]any{} // never nil: an empty output is the JSON array [], not null
 	var randV []byte
 	off := 0
 	for off < len(out) {
 		c, no, ok := parseKeyed(out, off)
 		if !ok {
-			return nil, nil, fmt.Errorf("cannot parse run output at %d: %q", off, out[off:])
+			res = append(res, map[string]any{"k": "?", "v": hx.FromBytes(out[off:])})
+			break
 		}
 		res = append(res, map[string]any{"k": c.K, "v": hx.FromBytes(c.V)})
 		off = no
@@ -33,18 +41,25 @@ func chunksOf(out []byte) ([]map[string]any, []byte, error) {
 			randV = c.V
 			nl := bytes.IndexByte(out[off:], '\n')
 			if nl < 0 {
-				return nil, nil, fmt.Errorf("no print line after the rand chunk")
+				if off < len(out) {
+					res = append(res, map[string]any{"k": "?", "v": hx.FromBytes(out[off:])})
+				}
+				break
 			}
 			res = append(res, map[string]any{"k": "", "v": hx.FromBytes(out[off : off+nl+1])})
 			off += nl + 1
 		}
 	}
-	return res, randV, nil
+	return res, randV
 }
 
 // Record drives n random histories (5-12 operations each: runs of random
-// kinds and configurations, ResetVars, ResetRand) on one real Interpreter
-// each and writes what every run printed for Trace_Reuse.tla.
+// kinds and configurations -- all 24 kinds x 5 configurations, so Execute,
+// ExecuteContext(Background) and contexts that are cancelled / expire after
+// the call mix freely with runs that read standard input through every path,
+// end by exit N + a failing END, or start commands --, ResetVars, ResetRand)
+// on one real Interpreter each and writes what every run printed for
+// Trace_Reuse.tla.  Every run gets its own standard input (tag).
 func Record(seed int64, n int, out string) (int, error) {
 	r := rand.New(rand.NewSource(seed))
 	f, err := os.Create(out)
@@ -80,15 +95,17 @@ func Record(seed int64, n int, out string) (int, error) {
 				emit(map[string]any{"ev": "step", "op": "resetrand"})
 			default:
 				kind, cfg := allKinds[r.Intn(len(allKinds))], allCfgs[r.Intn(len(allCfgs))]
-				res := s.run(kind, cfg, w)
+				if r.Intn(3) == 0 {
+					kind = newKinds[r.Intn(len(newKinds))]
+				}
+				tag := 1 + i%9
+				res := s.run(kind, cfg, tag, w)
 				if res.Panic != nil {
-					return t, fmt.Errorf("run %s/%s panicked: %v", kind, cfg, res.Panic)
+					// a panic is behaviour of the code too: recorded as an error class no run is predicted to have
+					res.Err = "panic"
 				}
-				chunks, rv, err := chunksOf(res.Out)
-				if err != nil {
-					return t, err
-				}
-				emit(map[string]any{"ev": "step", "op": "run", "kind": kind, "cfg": cfg, "status": res.Status, "err": res.Err,
+				chunks, rv := chunksOf(res.Out)
+				emit(map[string]any{"ev": "step", "op": "run", "kind": kind, "cfg": cfg, "tag": tag, "status": res.Status, "err": res.Err,
 					"out": chunks, "randfresh": bytes.Equal(rv, fresh)})
 			}
 		}
